@@ -1,7 +1,7 @@
 (** C06 lemmas, part 6: shift-equivariance of [NewPositionRange] (inserting lines above, prefixing every line —
     what deeper nesting of a rule document does; also used by C19). *)
-From Coq Require Import List String Ascii ZArith Bool Lia.
-From PintV Require Import Common.Bytes Model.Position Model.Layout Proofs.C06_expand Proofs.C06_match.
+From Coq Require Import List String Ascii ZArith NArith Bool Lia.
+From PintV Require Import Common.Bytes Model.CommentsUnicode Model.Position Model.Layout Proofs.C06_expand Proofs.C06_match.
 Import ListNotations.
 Local Open Scope Z_scope.
 Local Open Scope list_scope.
@@ -97,25 +97,21 @@ Qed.
 Lemma add_offset_nil_iff k d offs : add_offset k d offs = [] <-> offs = [].
 Proof. destruct offs; cbn; split; intros; congruence. Qed.
 
-Lemma npr_loop_shift k p : forall ls prev prev' li col minCol need rest offs o,
+Lemma npr_loop_shift k p : forall ls prev prev' li col minCol need rest offs brk o,
   (p = EmptyString \/ Forall (fun l => l <> EmptyString) ls) ->
-  (offs = [] \/ prev' = prev + slen p) ->
-  npr_loop ls prev li col minCol need rest offs = Ok o ->
+  (brk = false \/ prev' = prev + slen p) ->
+  npr_loop ls prev li col minCol need rest offs brk = Ok o ->
   npr_loop (map (fun l => (p ++ l)%string) ls) prev' (li + k) (col + slen p) (minCol + slen p) need rest
-           (add_offset k (slen p) offs) = Ok (add_offset k (slen p) o).
+           (add_offset k (slen p) offs) brk = Ok (add_offset k (slen p) o).
 Proof.
-  induction ls as [|line more IH]; intros prev prev' li col minCol need rest offs o Hp Hprev H.
+  induction ls as [|line more IH]; intros prev prev' li col minCol need rest offs brk o Hp Hprev H.
   - cbn in *. inversion H; subst. reflexivity.
   - cbn [map npr_loop] in *.
-    set (offs1 := match offs with [] => offs | _ => append_position offs (li - 1) (prev + 1) end) in *.
-    assert (Ho1 : match add_offset k (slen p) offs with
-                  | [] => add_offset k (slen p) offs
-                  | _ => append_position (add_offset k (slen p) offs) (li + k - 1) (prev' + 1)
-                  end = add_offset k (slen p) offs1).
-    { unfold offs1. destruct offs as [|q r]; [reflexivity|].
+    set (offs1 := if brk then append_position offs (li - 1) (prev + 1) else offs) in *.
+    assert (Ho1 : (if brk then append_position (add_offset k (slen p) offs) (li + k - 1) (prev' + 1)
+                   else add_offset k (slen p) offs) = add_offset k (slen p) offs1).
+    { unfold offs1. destruct brk; [|reflexivity].
       destruct Hprev as [Hx|Hx]; [discriminate|]. subst prev'.
-      change (add_offset k (slen p) (q :: r)) with (mkp (pr_line q + k) (pr_first q + slen p) (pr_last q + slen p) :: add_offset k (slen p) r).
-      cbv iota. change (mkp (pr_line q + k) (pr_first q + slen p) (pr_last q + slen p) :: add_offset k (slen p) r) with (add_offset k (slen p) (q :: r)).
       replace (li + k - 1) with (li - 1 + k) by lia. replace (prev + slen p + 1) with (prev + 1 + slen p) by lia.
       apply add_offset_append. }
     rewrite Ho1.
@@ -127,11 +123,61 @@ Proof.
     + inversion H; subst. reflexivity.
     + destruct (advance n1 r1) as [[n' r']|].
       * rewrite slen_app'. replace (li + k + 1) with (li + 1 + k) by lia.
-        apply (IH (slen line) (slen p + slen line) (li + 1) minCol minCol n' r' o1 o).
+        apply (IH (slen line) (slen p + slen line) (li + 1) minCol minCol n' r' o1 (is_fold_char n1) o).
         -- destruct Hp as [Hp|Hp]; [left; exact Hp|right]. inversion Hp; assumption.
         -- right. lia.
         -- exact H.
       * inversion H; subst. reflexivity.
+Qed.
+
+(** ** The character column of the node's own line under an ASCII prefix *)
+
+Lemma decode_from_ascii' c r i :
+  N.ltb (N_of_ascii c) 128 = true ->
+  decode_from 0 i (String c r) = (i, N_of_ascii c) :: decode_from 0 (S i) r.
+Proof. intros H. cbn [decode_from decode1]. rewrite H. reflexivity. Qed.
+
+Lemma decode_from_index_shift m : forall s sk i,
+  map fst (decode_from sk (i + m) s) = map (fun x => (x + m)%nat) (map fst (decode_from sk i s)).
+Proof.
+  induction s as [|c r IH]; intros sk i; [reflexivity|].
+  cbn [decode_from]. destruct sk as [|sk'].
+  - destruct (decode1 (String c r)) as [rn w]. cbn [map fst]. f_equal. apply (IH (Nat.pred w) (S i)).
+  - apply (IH sk' (S i)).
+Qed.
+
+Lemma byte_column_go_map_shift m : forall starts c len,
+  byte_column_go (map (fun x => (x + m)%nat) starts) c (len + Z.of_nat m) = byte_column_go starts c len + Z.of_nat m.
+Proof.
+  induction starts as [|i r IH]; intros c len; cbn [map byte_column_go]; [lia|].
+  destruct (c <=? 1); [lia|]. apply IH.
+Qed.
+
+Lemma byte_column_go_ascii_prefix : forall p l i c L,
+  ascii_only p = true -> 1 <= c ->
+  byte_column_go (map fst (decode_from 0 i (p ++ l))) (c + slen p) L =
+  byte_column_go (map fst (decode_from 0 (i + String.length p) l)) c L.
+Proof.
+  induction p as [|a p IH]; intros l i c L Ha Hc.
+  - cbn [append String.length]. change (slen "") with 0. rewrite Z.add_0_r, Nat.add_0_r. reflexivity.
+  - cbn [ascii_only] in Ha. apply andb_true_iff in Ha. destruct Ha as [Hc1 Ha].
+    cbn [append]. rewrite (decode_from_ascii' _ _ _ Hc1). cbn [map fst byte_column_go].
+    rewrite slen_String. pose proof (slen_nonneg p).
+    replace (c + (slen p + 1) <=? 1) with false by (symmetry; apply Z.leb_gt; lia).
+    replace (c + (slen p + 1) - 1) with (c + slen p) by lia.
+    rewrite (IH l (S i) c L Ha Hc). cbn [String.length]. replace (S i + String.length p)%nat with (i + S (String.length p))%nat by lia.
+    reflexivity.
+Qed.
+
+Lemma byte_column_shift p l c :
+  ascii_only p = true -> 1 <= c ->
+  byte_column (p ++ l) (c + slen p) = byte_column l c + slen p.
+Proof.
+  intros Ha Hc. unfold byte_column, decode_all.
+  rewrite (byte_column_go_ascii_prefix p l 0 c _ Ha Hc).
+  rewrite (decode_from_index_shift (String.length p) l 0 0).
+  rewrite slen_app'. replace (slen p + slen l) with (slen l + Z.of_nat (String.length p)) by (unfold slen; lia).
+  rewrite byte_column_go_map_shift. unfold slen. lia.
 Qed.
 
 Lemma skipn_app_plus {A} : forall (pre l : list A) m, skipn (List.length pre + m) (pre ++ l) = skipn m l.
@@ -145,27 +191,69 @@ Proof.
   induction m as [|m IH]; intros l H; [exact H|]. destruct l; [constructor|]. cbn. apply IH. inversion H; assumption.
 Qed.
 
-(** SHIFT-EQUIVARIANCE. Inserting [pre] lines above and prefixing every line with [p] (with no empty line in
-    the table unless [p] is empty: an empty line that becomes blanks is scanned, an empty line is skipped)
-    shifts the result by (number of inserted lines, length of the prefix). *)
+(** SHIFT-EQUIVARIANCE. Inserting [pre] lines above and prefixing every line with the ASCII text [p] (with no empty
+    line in the table unless [p] is empty: an empty line that becomes blanks is scanned, an empty line is skipped)
+    shifts the result by (number of inserted lines, length of the prefix).  Stated for nodes without an anchor
+    and with a column >= 1. *)
 Theorem npr_shift_lemma : forall pre p lines n minCol pos,
   (p = EmptyString \/ Forall (fun l => l <> EmptyString) lines) ->
+  ascii_only p = true -> sn_anchor n = EmptyString -> 1 <= sn_col n ->
   new_position_range lines n minCol = Ok pos ->
   new_position_range (shift_lines pre p lines) (shift_node (Z.of_nat (List.length pre)) (slen p) n) (minCol + slen p)
   = Ok (add_offset (Z.of_nat (List.length pre)) (slen p) pos).
 Proof.
-  intros pre p lines n minCol pos Hp H. unfold new_position_range in *. unfold shift_node. cbn [sn_value sn_line sn_col].
+  intros pre p lines n minCol pos Hp Hasc Hanc Hcol H. unfold new_position_range in *.
+  unfold shift_node at 1. cbn [sn_value].
   destruct (sn_value n) as [|need rest]; [inversion H; subst; reflexivity|].
-  destruct (sn_line n <=? 0) eqn:El; [discriminate|]. apply Z.leb_gt in El.
-  replace (sn_line n + Z.of_nat (List.length pre) <=? 0) with false by (symmetry; apply Z.leb_gt; lia).
-  unfold shift_lines.
-  replace (Z.to_nat (sn_line n + Z.of_nat (List.length pre) - 1)) with (List.length pre + Z.to_nat (sn_line n - 1))%nat by lia.
-  rewrite skipn_app_plus, skipn_map.
-  destruct (npr_loop (skipn (Z.to_nat (sn_line n - 1)) lines) 0 (sn_line n) (sn_col n) minCol need rest []) as [o|w] eqn:E;
-    [|destruct w; discriminate].
-  rewrite (npr_loop_shift (Z.of_nat (List.length pre)) p _ 0 0 (sn_line n) (sn_col n) minCol need rest [] o).
-  - destruct o as [|q o']; inversion H; subst; reflexivity.
-  - destruct Hp as [Hp|Hp]; [left; exact Hp|right; apply Forall_skipn; exact Hp].
-  - left. reflexivity.
-  - exact E.
+  assert (Hent : forall o, npr_entry lines n minCol need rest = Ok o ->
+            npr_entry (shift_lines pre p lines) (shift_node (Z.of_nat (List.length pre)) (slen p) n) (minCol + slen p) need rest
+            = Ok (add_offset (Z.of_nat (List.length pre)) (slen p) o)).
+  { intros o E. unfold npr_entry in *. unfold shift_node. cbn [sn_block sn_line sn_col sn_anchor]. unfold shift_lines.
+    destruct (sn_block n).
+    - destruct (sn_line n + 1 <=? 0) eqn:El; [discriminate|]. apply Z.leb_gt in El.
+      replace (sn_line n + Z.of_nat (List.length pre) + 1 <=? 0) with false by (symmetry; apply Z.leb_gt; lia).
+      replace (Z.to_nat (sn_line n + Z.of_nat (List.length pre))) with (List.length pre + Z.to_nat (sn_line n))%nat by lia.
+      rewrite skipn_app_plus, skipn_map.
+      replace (sn_line n + Z.of_nat (List.length pre) + 1) with (sn_line n + 1 + Z.of_nat (List.length pre)) by lia.
+      change [] with (add_offset (Z.of_nat (List.length pre)) (slen p) []) at 1.
+      apply (npr_loop_shift (Z.of_nat (List.length pre)) p _ 0 0 (sn_line n + 1) minCol minCol need rest [] false o).
+      + destruct Hp as [Hp|Hp]; [left; exact Hp|right; apply Forall_skipn; exact Hp].
+      + left. reflexivity.
+      + exact E.
+    - destruct (sn_line n <=? 0) eqn:El; [discriminate|]. apply Z.leb_gt in El.
+      replace (sn_line n + Z.of_nat (List.length pre) <=? 0) with false by (symmetry; apply Z.leb_gt; lia).
+      replace (Z.to_nat (sn_line n + Z.of_nat (List.length pre) - 1)) with (List.length pre + Z.to_nat (sn_line n - 1))%nat by lia.
+      rewrite skipn_app_plus, skipn_map. cbv zeta in E |- *.
+      set (ls := skipn (Z.to_nat (sn_line n - 1)) lines) in *.
+      assert (Hpl : p = EmptyString \/ Forall (fun l => l <> EmptyString) ls).
+      { destruct Hp as [Hp|Hp]; [left; exact Hp|right; apply Forall_skipn; exact Hp]. }
+      clearbody ls.
+      assert (Hc0 : match map (fun l => (p ++ l)%string) ls with
+                    | [] => sn_col n + slen p
+                    | l :: _ => if slen l =? 0 then sn_col n + slen p
+                                else first_col l (mksn (sn_value n) (sn_line n + Z.of_nat (List.length pre)) (sn_col n + slen p) false (sn_anchor n))
+                    end =
+                    match ls with [] => sn_col n | l :: _ => if slen l =? 0 then sn_col n else first_col l n end + slen p).
+      { destruct ls as [|l more]; [reflexivity|]. cbn [map]. rewrite slen_app'.
+        pose proof (slen_nonneg p). pose proof (slen_nonneg l).
+        destruct (slen l =? 0) eqn:E0.
+        - apply Z.eqb_eq in E0. destruct (slen p + slen l =? 0) eqn:E1; [reflexivity|].
+          apply Z.eqb_neq in E1.
+          (* l is empty, p is not: excluded by the hypothesis on empty lines *)
+          assert (l = EmptyString) by (destruct l; [reflexivity|rewrite slen_String in E0; pose proof (slen_nonneg l); lia]).
+          subst l. destruct Hpl as [Hq|Hq].
+          + subst p. change (slen "") with 0 in E1. lia.
+          + inversion Hq; contradiction.
+        - apply Z.eqb_neq in E0. replace (slen p + slen l =? 0) with false by (symmetry; apply Z.eqb_neq; lia).
+          unfold first_col. cbn [sn_col sn_anchor]. rewrite Hanc. apply byte_column_shift; assumption. }
+      rewrite Hc0.
+      replace (sn_line n + Z.of_nat (List.length pre)) with (sn_line n + Z.of_nat (List.length pre)) by lia.
+      change [] with (add_offset (Z.of_nat (List.length pre)) (slen p) []) at 1.
+      apply (npr_loop_shift (Z.of_nat (List.length pre)) p _ 0 0 (sn_line n) _ minCol need rest [] false o).
+      + exact Hpl.
+      + left. reflexivity.
+      + exact E. }
+  destruct (npr_entry lines n minCol need rest) as [o|w] eqn:E; [|destruct w; discriminate].
+  rewrite (Hent o eq_refl).
+  destruct o as [|q o']; inversion H; subst; reflexivity.
 Qed.
